@@ -321,8 +321,12 @@ def instsT (st : StructTable) (nf : Nat) (ρ : Store) : List (String × Idx) →
   | forks, f, .guard d ch =>
     if isTrue (evalRT st nf ρ f ⟨"bool", 0, 0⟩ d) then [] else instsTList st nf ρ forks f ch
   | forks, f, .subR c _ _ _ _ ch =>
-    -- one fork per recorded index / key of the call in this fork of the enclosing calls
-    (ρ.idx c f).flatMap fun ix => instsTList st nf ρ (forks ++ [(c, ix)]) (fset f c ix) ch
+    -- one fork per recorded index / key of the call in this fork of the enclosing calls; over an
+    -- empty / null collection nothing that forks over the call runs, the nodes below that do not
+    -- depend on it run once: den's optional instances ("no element")
+    if (ρ.idx c f).isEmpty then
+      (instsTList st nf ρ (forks ++ [(c, .none)]) (fset f c .none) ch).map fun i => { i with optional := true }
+    else (ρ.idx c f).flatMap fun ix => instsTList st nf ρ (forks ++ [(c, ix)]) (fset f c ix) ch
 def instsTList (st : StructTable) (nf : Nat) (ρ : Store) : List (String × Idx) → ForkAssign → List STree → List Inst
   | _, _, [] => []
   | forks, f, t :: ts => instsT st nf ρ forks f t ++ instsTList st nf ρ forks f ts
